@@ -7,7 +7,13 @@ tie        : harness/extractors/c01.py -> coq/Gen/ConstsC01.v (bounds used by th
              harness/props/transform_common.py)
 oracle     : 5-point central differences of `forward` with power-of-two steps
              against `jacobian` (relative 1e-4, stencil inside one smooth branch),
-             positivity of `jacobian`, monotonicity of `forward` on sorted points
+             positivity of `jacobian`, monotonicity of `forward` on sorted points;
+             the same clauses element-wise on input class R (every representation of
+             a float64 input: scalars, 1-/2-/3-d, C/Fortran order, transposed /
+             strided / reversed / block views, read-only, byte-swapped,
+             DataFrame.to_numpy()) and input class S (one object and one work buffer
+             through sequences of parameter changes, in-place refills and calls) -
+             oracle only
 """
 import math
 import os
@@ -290,7 +296,7 @@ def eval_elements(ctx, tag, name, opts, eff, rep0, t, recs, idxs, shape, put, pa
         checks.append(("jacobian(x) after the array went through the stencil values and back", j2))
     note = " [the content of x was modified by the calls]" if changed else ""
     for p, r in enumerate(sel):
-        idx = list(np.unravel_index(p, shape)) if shape else []
+        idx = [int(i) for i in np.unravel_index(p, shape)] if shape else []
         for label, J in checks:
             j = J[p]
             ext = {"method": "jacobian", "index": idx, "x_at_index": r["x"], "output": j,
@@ -395,7 +401,14 @@ def sequence_checks(ctx):
         for oi in range(ctx.scale(2, max(3, len(variants)))):
             opts = variants[oi % len(variants)]
             if tc.bounds(name, opts):
-                first, steps = tc.stateful_plan(name, opts, rng, nsteps)
+                try:
+                    first, steps = tc.stateful_plan(name, opts, rng, nsteps)
+                except (ValueError, OverflowError, ZeroDivisionError):
+                    # the generator of random settings cannot work with the bounds extracted from
+                    # this tree (e.g. a lower bound of a scale that is not positive - the proofs
+                    # report that): one setting, the buffer operations only
+                    ctx.notes.setdefault("sequence_plan_fallback", []).append(name)
+                    first, steps = vec_k(name, opts, rng, 0), [("none", {})] * nsteps
             else:                                   # Identity: nothing to set
                 first, steps = {}, [("none", {})] * nsteps
             blabel, shape, alloc = buffers[(oi + len(name)) % len(buffers)]
@@ -449,10 +462,164 @@ def sequence_checks(ctx):
     ctx.notes["sequence_objects"] = nobj
 
 
+def softmax_fd_dets(fwd, R):
+    """determinants of the matrices of 5-point partial derivatives of forward at the rows of R;
+    `fwd(M)` = forward values (flat, C order) of the content M, None when it raised"""
+    nr, nc = R.shape
+    hv = np.array([2.0 ** math.floor(math.log2(min(min(r), 1 - sum(r)) / 256)) for r in R.tolist()])
+    P = np.zeros((nr, nc, nc))
+    for c in range(nc):
+        f = {}
+        for d in (-2, -1, 1, 2):
+            M = R.copy()
+            M[:, c] = R[:, c] + d * hv
+            out = fwd(M)
+            if out is None or len(out) != R.size:
+                return None
+            f[d] = np.array(out).reshape(nr, nc)
+        P[:, :, c] = (f[-2] - 8 * f[-1] + 8 * f[1] - f[2]) / (12 * hv[:, None])
+    return [float(np.linalg.det(P[i])) for i in range(nr)]
+
+
+def eval_softmax(ctx, tag, rep0, sm, R, put, pattern, recheck):
+    """the Softmax clauses on the rows of R handed over by `put` (see eval_elements)"""
+    from hydrodiy.stat import transform as T
+    nr, nc = R.shape
+
+    def fail(mode, extra, text):
+        ctx.failure(f"C02/Softmax/{tag}-{mode}", dict(rep0, **extra), f"Softmax: {text}")
+        return False
+
+    # references: a fresh object on fresh arrays
+    ref = T.Softmax()
+    refj, _, _ = call_on(ref, "jac", R.copy())
+    refdet = softmax_fd_dets(lambda M: call_on(ref, "fwd", M)[0], R)
+    if refj is None or refdet is None or not all(abs(d - j) <= REL * abs(j) for d, j in zip(refdet, refj)):
+        ctx.notes["softmax_reference_unusable"] = ctx.notes.get("softmax_reference_unusable", 0) + 1
+        return True                    # the main loop's matter (fresh object, fresh arrays)
+    A = put(R)
+    desc = describe(A)
+    rep0 = dict(rep0, array=desc, rows=R.tolist(), calls=list(pattern))
+    last = {}
+    for m in pattern:
+        out, _, err = call_on(sm, m, A)
+        meth = {"fwd": "forward", "jac": "jacobian"}[m]
+        if out is None:
+            return fail(f"{meth}-raises", {"method": meth, "exception": err},
+                        f"{meth}(x) raised {err} in the domain for x = {R.tolist()} passed as {desc} "
+                        f"(calls on this array: {list(pattern)})")
+        if len(out) != (nr if m == "jac" else R.size):
+            return fail(f"{meth}-shape", {"method": meth, "output": out},
+                        f"{meth}(x) has {len(out)} elements for x of shape {R.shape} passed as {desc}")
+        last[m] = out
+    changed = not np.array_equal(np.asarray(A, dtype=np.float64).reshape(R.shape), R)
+    dets = softmax_fd_dets(lambda M: call_on(sm, "fwd", put(M))[0], R)
+    checks = [("jacobian(x)", last["jac"])]
+    if recheck:
+        A = put(R)
+        j2, _, err = call_on(sm, "jac", A)
+        if j2 is None or len(j2) != nr:
+            return fail("jacobian-raises", {"method": "jacobian", "exception": err},
+                        f"jacobian(x) raised {err} (or lost rows) when x = {R.tolist()} was passed again as {desc}")
+        checks.append(("jacobian(x) after the array went through the stencil values and back", j2))
+    note = " [the content of x was modified by the calls]" if changed else ""
+    for i in range(nr):
+        for label, J in checks:
+            j = J[i]
+            ext = {"method": "jacobian", "row": i, "output": j, "output_all": J,
+                   "reference_jacobian": refj[i], "determinant_of_partial_derivatives": refdet[i]}
+            if not j > 0:
+                return fail("jacobian-not-positive", ext,
+                            f"{label}[{i}] = {j!r} is not positive; x = {R.tolist()} passed as {desc}{note}")
+            if not (abs(j - refdet[i]) <= REL * abs(j) and abs(j - refj[i]) <= REL * abs(refj[i])):
+                return fail("jacobian-differs-from-determinant", ext,
+                            f"{label}[{i}] = {j!r} but the determinant of the partial derivatives of forward at "
+                            f"the row x[{i}] = {R[i].tolist()} is {refdet[i]!r} (jacobian of a fresh object on a "
+                            f"fresh array: {refj[i]!r}); x = {R.tolist()} passed as {desc}{note}")
+        if dets is None or not abs(dets[i] - last["jac"][i]) <= REL * abs(last["jac"][i]):
+            return fail("jacobian-differs-from-determinant",
+                        {"method": "jacobian", "row": i, "output": last["jac"][i],
+                         "determinant_of_partial_derivatives": None if dets is None else dets[i]},
+                        f"jacobian(x)[{i}] = {last['jac'][i]!r}, determinant of the 5-point partial derivatives of "
+                        f"forward evaluated through the same array = {None if dets is None else dets[i]!r}; "
+                        f"x = {R.tolist()} passed as {desc}{note}")
+    ctx.count(("Softmax", tag, desc["type"], nr, nc), n=nr)
+    return True
+
+
+def softmax_checks(ctx):
+    """input classes R and S for Softmax (rows = points of the simplex interior)"""
+    from hydrodiy.stat import transform as T
+    rng = ctx.rng
+
+    def rows(nr, nc):
+        return np.array(tc.softmax_rows(rng, nr, nc, smax=0.99), dtype=np.float64)
+
+    # R
+    for k in range(ctx.scale(8, 40)):
+        nr, nc = [1, 2, 3, 4][k % 4], [2, 3, 1, 5, 4][k % 5]
+        R = rows(nr, nc)
+        cm.mark({"call": "Softmax.jacobian (representations)", "rows": R.tolist()})
+        reps = [(lab, b) for lab, dims, b in REPRESENTATIONS if 2 in dims] + [("list of rows", lambda M: M.tolist())]
+        if nr == 1:
+            reps += [("one row, 1-d: " + lab, (lambda M, b=b: b(M[0]))) for lab, dims, b in REPRESENTATIONS
+                     if 1 in dims] + [("one row, python list", lambda M: M[0].tolist())]
+        for label, build in reps:
+            if not eval_softmax(ctx, "representation",
+                                {"class": "Softmax", "representation": label,
+                                 "input_class": "representations of the input (R)"},
+                                T.Softmax(), R, build, ("jac", "fwd"), False):
+                break
+    # S
+    buffers = [("2-d buffer", lambda nr, nc: np.zeros((nr, nc))),
+               ("Fortran-ordered 2-d buffer", lambda nr, nc: np.zeros((nr, nc), order="F")),
+               ("strided view used as buffer", lambda nr, nc: np.zeros((2 * nr, 3 * nc))[::2, 1::3])]
+    nsteps = ctx.scale(8, 24)
+    for oi in range(ctx.scale(6, 24)):
+        nr, nc = [2, 3, 1, 4][oi % 4], [3, 2, 4, 1, 5][oi % 5]
+        blabel, alloc = buffers[oi % len(buffers)]
+        buf = alloc(nr, nc)
+        sm = T.Softmax() if oi % 2 else T.get_transform("Softmax")
+        history = []
+
+        def put(M, buf=buf):
+            buf[...] = M
+            return buf
+
+        R = rows(nr, nc)
+        cm.mark({"call": "Softmax (sequence)", "first": R.tolist()})
+        for si in range(nsteps):
+            op = ["refill", "scale", "refill", "reverse-rows", "scale"][(si + oi) % 5] if si else "fill"
+            if op == "scale":
+                c = [0.5, 0.25, 0.75][si % 3]
+                R = R * c
+                op = f"scaled in place by {c}"
+            elif op == "reverse-rows" and nr > 1:
+                R = R[::-1].copy()
+            else:
+                R = rows(nr, nc)
+            if rng.random() < 0.25:           # another array goes through the object in between
+                other = rows(nr, nc)
+                call_on(sm, "jac", other)
+                history.append(("jacobian of another array", other.tolist()))
+            pattern = PATTERNS[(si + oi) % len(PATTERNS)]
+            history.append((f"buffer: {op}, then " + ", ".join(pattern) + ", stencil in place, jac", R.tolist()))
+            if not eval_softmax(ctx, "sequence",
+                                {"class": "Softmax", "buffer": blabel, "history": list(history),
+                                 "input_class": "sequence of operations on one object and one array (S)"},
+                                sm, R, put, pattern, True):
+                break
+
+
 def run(ctx):
     ctx.rule = ("12 scalar classes x constructor-option variants (log base > 1) x parameter vectors as in "
                 "C01 x interior domain points; jacobian through the public API; Softmax: 2-D rows; "
-                "non-trivial = distinct (class, parameter branch, sign of x, NaN expected) signature")
+                "non-trivial = distinct (class, parameter branch, sign of x, NaN expected) signature; "
+                "R = the same points through every representation of a float64 input (python/numpy scalar, "
+                "1-/2-/3-d arrays, C/Fortran order, transposed, axes-permuted, strided, reversed, column and "
+                "block views, read-only, non-native byte order, DataFrame.to_numpy(); Softmax: also lists); "
+                "S = one object and one array object through sequences (parameters changed in the 6 API "
+                "styles, buffer refilled / scaled / perturbed in place, forward and jacobian in varying order)")
     ctx.trusted = cm.STD_TRUST + [
         "engine E3: the real-number model evaluated by `interval` inside Coq at the implementation's "
         "inputs, compared with the implementation's jacobian under an a priori forward-error bound",
@@ -464,6 +631,10 @@ def run(ctx):
         "(proved for dimensions 1, 2 and 3; tested numerically for n <= 5)",
         "monotonicity of Yeo-Johnson across the sliver 0 < w < EPS (not claimed; DESIGN 5/C02 G)",
         "Log with a base < 1 is decreasing: outside the positivity clause (generators use base > 1)",
+        "independence of jacobian/forward from the memory representation of x and from the history of the "
+        "object / of the array passed (input classes R and S): tested; the model is a pure function of the values",
+        "R leaves out float32/integer inputs (the 1e-4 clause is stated for binary64 points), 0-d arrays, and "
+        "0-d inputs of YeoJohnson (TypeError in dutils.cast under this numpy on the unchanged tree)",
     ]
     ctx.checker_cmd = (f"cd /verif && ./check {PID} --tier {ctx.tier}  (make -C coq Props/{PID}.vo "
                        f"Proofs/TransformTac.vo; coqc on the generated E3_{PID}_*.v: one "
@@ -634,10 +805,17 @@ def run(ctx):
                                 dict(rep, row=r, determinant=det, jacobian=j),
                                 f"Softmax: jacobian {j!r} != determinant of the partial derivatives {det!r}")
 
+    # ---- input classes R (representations) and S (sequences on one object / one array): oracle only
+    t_rs = time.time()
+    representation_checks(ctx)
+    sequence_checks(ctx)
+    softmax_checks(ctx)
+    t_rs = time.time() - t_rs
+
     t1 = time.time()
     bad, nok, nshards, failed = tc.run_e3(PID, goals, shard=ctx.scale(40, 60))
-    ctx.notes["timing_s"] = {"prove": round(t_prove, 1), "generate+oracle": round(t1 - t0 - t_prove, 1),
-                             "e3": round(time.time() - t1, 1)}
+    ctx.notes["timing_s"] = {"prove": round(t_prove, 1), "generate+oracle": round(t1 - t0 - t_prove - t_rs, 1),
+                             "classes R+S": round(t_rs, 1), "e3": round(time.time() - t1, 1)}
     ctx.notes["correspondence_goals"] = len(goals)
     ctx.notes["correspondence_mismatches"] = len(bad)
     ctx.notes["e3_shards"] = nshards
